@@ -58,6 +58,7 @@ var ScaledShapes = []ScaledShape{
 	{"heredoc-with-many-interpolations", 0, func(n int, nl string) string { return "<?php $a = <<<EOT" + nl + rep("text $b {$c->d} ${e}"+nl, n) + "EOT;" + nl + "$z;" }},
 	{"nowdoc-many-lines", 0, func(n int, nl string) string { return "<?php $a = <<<'EOT'" + nl + rep("raw $b"+nl, n) + "EOT;" + nl + "$z;" }},
 	{"many-heredocs", 0, func(n int, nl string) string { return "<?php" + nl + rep("$a = <<<L"+nl+"x"+nl+"L;"+nl, n) }},
+	{"nested-interpolations", 0, func(n int, nl string) string { return "<?php $a = " + rep("\"x{$b[", n) + "1" + rep("]}y\"", n) + ";" }},
 	{"backtick-with-many-interpolations", 0, func(n int, nl string) string { return "<?php $a = `" + rep("ls $b ", n) + "`;" }},
 	{"long-block-comment-many-lines", 0, func(n int, nl string) string { return "<?php /* " + rep("c"+nl, n) + "*/ $a;" + nl + "$b;" }},
 	{"long-doc-comment-many-lines", 0, func(n int, nl string) string { return "<?php /** " + rep(" * d"+nl, n) + " */ function f() {}" }},
